@@ -136,7 +136,8 @@ pub fn run(rep: &mut Report) {
         }
     }
     for &b in &sbs {
-        for &m in &[1u64, 64, 4096] {
+        // m: 1, a size below 8, sizes that are no multiple of 4 or 8, and the usual powers of two
+        for &m in &[1u64, 5, 64, 101, 4096] {
             for (si, (sname, n0, n1, n2)) in shapes.iter().enumerate() {
                 ci += 1;
                 let ntot = n0 + n1 + n2;
